@@ -163,13 +163,23 @@ Definition aggregate_assets (items : list (list (bytes * list (bytes * Z)))) :=
   end.
 End Fold.
 
+(** exact totals per (policy, name) over a list of multi-asset items: ensure_native_totals_fit /
+    ensure_mint_totals_fit refuse a total that leaves the field before anything is aggregated *)
+Definition item_triples (items : list (list (bytes * list (bytes * Z)))) : list (bytes * bytes * Z) :=
+  flat_map (fun it => flat_map (fun pm => map (fun na => (fst pm, fst na, snd na)) (snd pm)) it) items.
+Definition total_of (ts : list (bytes * bytes * Z)) (p n : bytes) : Z :=
+  fold_right (fun x acc => if bool_decide (fst (fst x) = p) && bool_decide (snd (fst x) = n) then snd x + acc else acc) 0 ts.
+Definition totals_fit (ok : Z -> bool) (items : list (list (bytes * list (bytes * Z)))) : bool :=
+  let ts := item_triples items in forallb (fun x => ok (total_of ts (fst (fst x)) (snd (fst x)))) ts.
+
 (** aggregate_values: u64 `+=` on the coin (overflow: panic with overflow checks) *)
 Definition aggregate_values (vs : list value) : outcome (Z * list (bytes * list (bytes * Z))) :=
   c <- fold_left (fun acc v => a <- acc ;;
                                let x := match v with VCoin x | VMulti x _ => x end in
                                if a + x <? 2 ^ 64 then Ok (a + x) else Err "CoerceError") vs (Ok 0) ;;   (* ensure_total_coin_fits *)
   let ms := flat_map (fun v => match v with VMulti _ m => [m] | _ => [] end) vs in
-  Ok (c, from_option id [] (aggregate_assets safe_add_pos ms)).
+  if totals_fit (fun z => z <? 2 ^ 64) ms then Ok (c, from_option id [] (aggregate_assets safe_add_pos ms))
+  else Err "CoerceError".                                               (* ensure_native_totals_fit *)
 
 Definition encode_datum (e : expr) : outcome (option (list N)) :=
   match e with
@@ -247,7 +257,7 @@ Definition compile_mint_asset (burn : bool) (x : expr * expr * expr) : outcome (
 Definition compile_mint_side (burn : bool) (ms : list mint) :=
   lists <- omapM (fun m => expr_into_assets (m_amount m)) ms ;;
   items <- omapM (compile_mint_asset burn) (concat lists) ;;
-  Ok (aggregate_assets safe_add_nz items).
+  if totals_fit in_i64 items then Ok (aggregate_assets safe_add_nz items) else Err "CoerceError".   (* ensure_mint_totals_fit *)
 
 Definition compile_mint_block (t : tx) : outcome (option (list (bytes * list (bytes * Z)))) :=
   match tx_mints t, tx_burns t with
@@ -257,7 +267,7 @@ Definition compile_mint_block (t : tx) : outcome (option (list (bytes * list (by
     mi <- compile_mint_side false (tx_mints t) ;;
     bu <- compile_mint_side true (tx_burns t) ;;
     match mi, bu with
-    | Some a, Some b => Ok (aggregate_assets safe_add_nz [a; b])
+    | Some a, Some b => if totals_fit in_i64 [a; b] then Ok (aggregate_assets safe_add_nz [a; b]) else Err "CoerceError"
     | Some a, None => Ok (Some a)
     | None, Some b => Ok (Some b)
     | None, None => Ok None
@@ -299,9 +309,13 @@ Definition withdrawal_directives (t : tx) := filter (fun a => bool_decide (ad_na
 
 Definition compile_withdrawals (t : tx) : outcome (option (list (bytes * Z))) :=
   ws <- omapM (fun a => compile_withdrawal (ad_data a)) (withdrawal_directives t) ;;
-  Ok (non_empty (fold_left (fun acc kv => bt_put (fst kv) (snd kv) acc) ws [])).
+  (* one amount per reward account: a second directive for the same account is refused *)
+  if nodupb (map fst ws) then Ok (non_empty (fold_left (fun acc kv => bt_put (fst kv) (snd kv) acc) ws []))
+  else Err "ConsistencyError".
 
 Definition compile_donation (t : tx) : outcome (option Z) :=
+  if (1 <? length (filter (fun a => bool_decide (ad_name a = "treasury_donation"%string)) (tx_adhoc t)))%nat
+  then Err "ConsistencyError" else
   match find (fun a => bool_decide (ad_name a = "treasury_donation"%string)) (tx_adhoc t) with
   | Some a =>
     match data_get "coin" (ad_data a) with
